@@ -74,13 +74,21 @@ func newC06Checker(c *mon.Ctx) *c06Checker {
 }
 
 // check runs one stream under every configuration at both levels.
-func (k *c06Checker) check(stream []byte, chunks [][]byte, deltas []int32, withL2 bool) {
+func (k *c06Checker) check(stream []byte, chunks [][]byte, deltas []int32, withL2 bool, extra ...liveCfg) {
 	c := k.c
-	for ci, cfg := range c06Cfgs {
+	cfgs := c06Cfgs
+	if len(extra) > 0 {
+		cfgs = append(append([]liveCfg(nil), c06Cfgs...), extra...)
+	}
+	for ci, cfg := range cfgs {
+		var cover func(string)
+		if ci < len(k.covers) {
+			cover = k.covers[ci]
+		}
 		// reference, byte by byte with unit deltas (time = index of the completing byte)
 		bb := splitBytes(stream)
 		un := ones(len(stream))
-		want := refRun(cfg, bb, un, k.covers[ci])
+		want := refRun(cfg, bb, un, cover)
 		for _, d := range want {
 			if d.Kind == ref.EvStrayF7 {
 				c.Count("stray_f7", 1)
@@ -120,7 +128,7 @@ func (k *c06Checker) check(stream []byte, chunks [][]byte, deltas []int32, withL
 				c.Count("deliveries_l2", int64(len(got2)))
 				if err != nil {
 					c.Violation("l2-send-error", fmt.Sprintf("Send failed: %v", err), in, nil, err.Error())
-				} else if d := cmpL2(got2, want); d != "" {
+				} else if d := cmpL2(got2, filterByOptions(cfg, want)); d != "" {
 					c.Violation("l2-vs-receiver", fmt.Sprintf("midi.ListenTo (%s) on % X: %s", cfg, stream, d), in, delivList(want), obsList(got2))
 				}
 			} else {
@@ -275,7 +283,10 @@ func runC06(c *mon.Ctx) {
 			deltas[1+r.Intn(len(deltas)-1)] = int32(r.Pick(1<<31-1, 1<<31-5000, 2_000_000_000))
 			c.Count("streams_with_clock_wrap", 1)
 		}
-		k.check(s, chunks, deltas, i%2 == 0)
+		// a third configuration with any combination of the listen options and other buffer sizes
+		xc := liveCfg{sysex: r.Bool(), clock: r.Bool(), sense: r.Bool(), buf: uint32(r.Pick(0, 4, 5, 16, 64))}
+		c.SetAdd("option_combinations", fmt.Sprintf("sysex=%v clock=%v sense=%v", xc.sysex, xc.clock, xc.sense))
+		k.check(s, chunks, deltas, i%2 == 0, xc)
 		k.countFeatures(s)
 		c.Count("streams_random", 1)
 		c.DistinctBytes(s)
@@ -434,7 +445,7 @@ func runC06(c *mon.Ctx) {
 				prefix[j] = r.Byte()
 			}
 		}
-		cfg := liveCfg{sysex: true, clock: true, sense: true, buf: uint32(r.Pick(0, 16, 64))}
+		cfg := liveCfg{sysex: true, clock: r.Bool(), sense: r.Bool(), buf: uint32(r.Pick(0, 16, 64))}
 		msgs := gen.LiveSequence(r, r.Range(1, 12), cfg.bufSize(), true)
 		wire := gen.Serialize(r, msgs, gen.SerOpts{RunningStatus: true, Realtime: r.P(1, 2), FirstExplicit: true})
 		stream := append(append([]byte(nil), prefix...), wire.Bytes...)
